@@ -12,6 +12,7 @@ import (
 	"sort"
 	"strconv"
 	"sync"
+	"sync/atomic"
 	"time"
 
 	"github.com/unixpickle/model3d/model2d"
@@ -403,6 +404,41 @@ func stressScenarios(rng *rand.Rand) map[string]func() int {
 				MaxDepth: 3, MinDepth: 2, NumSamples: 2}
 			bp.Render(img, scene)
 			return 0
+		},
+		// the first evaluation of an argument is still running when a second goroutine asks for the
+		// same argument (forced: the wrapped function waits for the second caller to return)
+		"cached-scalar-func-overlap": func() int {
+			bad := 0
+			for _, val := range []float64{5, -3, 0.25} {
+				var calls int32
+				started := make(chan struct{})
+				secondDone := make(chan struct{})
+				g := func(x float64) float64 {
+					if atomic.AddInt32(&calls, 1) == 1 {
+						close(started)
+						select {
+						case <-secondDone:
+						case <-time.After(2 * time.Second):
+						}
+					}
+					return val * x
+				}
+				f := model2d.CacheScalarFunc(g)
+				var r1 float64
+				d1 := make(chan struct{})
+				go func() { r1 = f(2); close(d1) }()
+				select {
+				case <-started:
+				case <-time.After(2 * time.Second):
+				}
+				r2 := f(2)
+				close(secondDone)
+				<-d1
+				if r1 != 2*val || r2 != 2*val || f(2) != 2*val {
+					bad++
+				}
+			}
+			return bad
 		},
 		"cached-scalar-func": func() int {
 			curve := model2d.BezierCurve{model2d.XY(0, 0), model2d.XY(1, 2), model2d.XY(2, 0)}
